@@ -268,25 +268,21 @@ func (g *Gen) runRecording() {
 }
 
 func (g *Gen) query(o *Obl, extraHyp string, model bool) string {
-	var b strings.Builder
-	if model {
-		b.WriteString("(set-option :produce-models true)\n")
-	}
-	b.WriteString(prelude)
+	var gl, lc strings.Builder
 	for _, d := range g.dtypes {
-		b.WriteString(d + "\n")
+		gl.WriteString(d + "\n")
 	}
 	for _, n := range g.dord {
 		s := g.decl[n]
 		if strings.HasPrefix(s, "fun:") {
-			fmt.Fprintf(&b, "(declare-fun %s %s)\n", n, strings.TrimPrefix(s, "fun:"))
+			fmt.Fprintf(&gl, "(declare-fun %s %s)\n", n, strings.TrimPrefix(s, "fun:"))
 		} else {
-			fmt.Fprintf(&b, "(declare-const %s %s)\n", n, s)
+			fmt.Fprintf(&gl, "(declare-const %s %s)\n", n, s)
 		}
 	}
-	b.WriteString(g.specText)
+	gl.WriteString(g.specText)
 	for _, d := range g.preDefs {
-		b.WriteString(d + "\n")
+		gl.WriteString(d + "\n")
 	}
 	// slice: only assumptions emitted in blocks that can reach the obligation's block (forward edges)
 	var anc map[int]bool
@@ -297,16 +293,39 @@ func (g *Gen) query(o *Obl, extraHyp string, model bool) string {
 		if anc != nil && i < len(g.defBlk) && g.defBlk[i] >= 0 && !anc[g.defBlk[i]] {
 			continue
 		}
-		b.WriteString(d + "\n")
+		if tags := g.defTag[i]; len(tags) > 0 && len(o.Props) > 0 && !o.Vacuity {
+			shared := false
+			for _, t := range tags {
+				if hasProp(o.Props, t) {
+					shared = true
+				}
+			}
+			if !shared {
+				continue
+			}
+		}
+		lc.WriteString(d + "\n")
 	}
-	fmt.Fprintf(&b, "; obligation %s\n; clause: %s  (%s)\n", o.Name, o.Text, o.Where)
-	fmt.Fprintf(&b, "(assert %s)\n", o.Hyp)
+	fmt.Fprintf(&lc, "; obligation %s\n; clause: %s  (%s)\n", o.Name, o.Text, o.Where)
+	fmt.Fprintf(&lc, "(assert %s)\n", o.Hyp)
 	if extraHyp != "" {
-		fmt.Fprintf(&b, "(assert %s)\n", extraHyp)
+		fmt.Fprintf(&lc, "(assert %s)\n", extraHyp)
 	}
-	fmt.Fprintf(&b, "(assert (not %s))\n(check-sat)\n", o.SkGoal)
+	fmt.Fprintf(&lc, "(assert (not %s))\n(check-sat)\n", o.SkGoal)
 	if model {
-		b.WriteString("(get-model)\n")
+		lc.WriteString("(get-model)\n")
 	}
+	var b strings.Builder
+	if model {
+		b.WriteString("(set-option :produce-models true)\n")
+	}
+	b.WriteString(prelude)
+	if os.Getenv("FVC_NOPRUNE") != "" {
+		b.WriteString(gl.String())
+	} else {
+		// only the declarations, spec functions and axioms that the obligation is connected to (prune.go)
+		b.WriteString(pruneQuery(prelude, gl.String(), lc.String()))
+	}
+	b.WriteString(lc.String())
 	return b.String()
 }
